@@ -181,6 +181,77 @@ def work(task):
     return n, acc, bad, sample
 
 
+SCHEMAS = [
+    # sanctioned AuxData table types of the GTIRB ecosystem (AuxData.md)
+    "mapping<UUID,UUID>", "mapping<UUID,set<UUID>>", "mapping<Offset,string>",
+    "mapping<UUID,uint64_t>", "mapping<UUID,tuple<uint64_t,string,string,"
+    "string,uint64_t>>", "mapping<Offset,sequence<tuple<string,"
+    "sequence<int64_t>,UUID>>>", "sequence<string>", "set<UUID>",
+    "mapping<UUID,sequence<tuple<uint64_t,sequence<tuple<uint8_t,int64_t>>>>>",
+    "tuple<mapping<uint16_t,tuple<sequence<string>,uint16_t>>,"
+    "mapping<string,mapping<uint16_t,string>>,"
+    "mapping<UUID,tuple<uint16_t,bool>>>",
+    "mapping<UUID,tuple<string,string,uint64_t>>",
+    "sequence<tuple<string,uint64_t,uint64_t,uint64_t>>",
+    "mapping<string,variant<int64_t,string,tuple<uint64_t,uint64_t>>>",
+]
+
+
+def magnitude_strings():
+    """type names of realistic and larger size: many fields, deep nesting,
+    long names, the sanctioned AuxData schemas - each also with one
+    delimiter dropped, doubled or swapped (must be rejected)"""
+    out = []
+    for k in list(range(1, 40)) + [63, 64, 65, 100, 255, 256, 257, 1000]:
+        out.append("tuple<" + ",".join(["a"] * k) + ">")
+        out.append("variant<" + ",".join("f%d" % i for i in range(k)) + ">")
+        out.append("t<" + ",".join(["m<k,v>"] * k) + ">")
+    for d in list(range(1, 40)) + [64, 100, 200]:
+        out.append("s<" * d + "x" + ">" * d)
+        out.append("m<k," * d + "x" + ">" * d)
+    for j in range(0, 14):
+        nm = "n" * (1 << j)
+        out += [nm, "sequence<%s>" % nm, "%s<%s,%s>" % (nm, nm, nm)]
+    out += SCHEMAS
+    base = list(out)
+    for s in base:
+        if len(s) < 3:
+            continue
+        mid = len(s) // 2
+        last = s.rfind(">")
+        if last > 0:
+            out.append(s[:last] + s[last + 1:])        # one '>' dropped
+            out.append(s[:last] + ">>" + s[last + 1:])  # one '>' too many
+        first = s.find("<")
+        if first > 0:
+            out.append(s[:first] + s[first + 1:])      # '<' dropped
+        c = s.rfind(",")
+        if c > 0:
+            out.append(s[:c] + ",," + s[c + 1:])       # empty field
+            out.append(s[:c] + ">" + s[c + 1:])        # ',' -> '>'
+        out.append(s[:mid] + "<" + s[mid:])            # stray '<'
+    return out
+
+
+def work_magnitude(chunk):
+    import sys
+
+    sys.setrecursionlimit(max(sys.getrecursionlimit(), 20000))
+    n = acc = 0
+    bad = []
+    for s in chunk:
+        n += 1
+        try:
+            r = classify(s, True)
+        except RecursionError:
+            r = ("harness-recursion", "")
+        if ref_parse(s) is not None:
+            acc += 1
+        if r is not None and r[0] != "harness-recursion" and len(bad) < 20:
+            bad.append((s, "magnitude:" + r[0], r[1], None))
+    return n, acc, bad, None
+
+
 def tasks_for(alphabet, maxlen, public_maxlen, split=3):
     out = []
     for L in range(0, maxlen + 1):
@@ -237,6 +308,14 @@ def run(ctx):
         if ctx.out_of_time():
             capped = True
             break
+    mags = magnitude_strings()
+    n_mag = 0
+    for n, acc, bad, _ in common.pmap(
+            work_magnitude, [mags[i::32] for i in range(32)], chunksize=1):
+        total += n
+        n_mag += n
+        accepted += acc
+        bad_all += bad
     # report shortest counterexample per kind, after a determinism re-check
     bad_all.sort(key=lambda b: (len(b[0]), b[0]))
     seen = set()
@@ -253,7 +332,7 @@ def run(ctx):
         else:
             again = [classify(s, True) for _ in range(3)]
             kinds = {a[0] if a else None for a in again}
-            if kind not in kinds:
+            if kind.replace("magnitude:", "") not in kinds:
                 ctx.unreproduced.append([s, kind])
                 continue
         seen.add(kind)
@@ -277,6 +356,11 @@ def run(ctx):
             {"alphabet": list(a), "max_len": m, "public_path_max_len": p}
             for a, m, p in plans
         ],
+        "magnitude_strings": n_mag,
+        "magnitude_rule": "flat tuples / variants with 1..39, 63..65, 100, "
+        "255..257, 1000 fields, nesting depth 1..39, 64, 100, 200, names of "
+        "2^0..2^13 characters, the sanctioned AuxData schemas; each also with "
+        "one delimiter dropped / doubled / swapped",
         "accepted_strings": accepted,
         "rejected_strings": total - accepted,
         "tasks_done": done_tasks,
